@@ -9,10 +9,11 @@
   existing definitions (which the harness validates) are untouched.  `YtkProps/Cxx.lean` then proves by
   kernel `decide` that the tables regenerated from the Go source (`Generated/Tables.lean`) equal these.
 
-  `FileCodec` has no older counterpart: the model treats the text codecs as parameters; which codec a
+  `FileCodec` (YtkModel/FileCodec.lean, its own file so that C16 can import it alone) has no older counterpart: the model treats the text codecs as parameters; which codec a
   file suffix selects (common.DefaultFile{Decoder,Encoder}Provider) is modelled here for the first time.
 -/
 import YtkModel.TableTypes
+import YtkModel.FileCodec
 import YtkModel.Patch
 import YtkModel.K8s
 import YtkModel.PipelineData
@@ -106,31 +107,6 @@ def sectionTable : List TableT.SectionRow :=
    ⟨"tk", "afterLoadString", false, "beforeSaveString", false⟩]
 
 end Ytk.K8s
-
-/-! ## common.DefaultFile{Decoder,Encoder}Provider -/
-namespace Ytk.FileCodec
-
-/-- the three text codecs -/
-inductive Fmt | yaml | json | properties
-  deriving DecidableEq, Repr, Inhabited
-
-/-- `filepath.Ext(file)` ↦ codec, sorted by suffix; anything else: no codec (nil) -/
-def suffixTable : List (String × Fmt) :=
-  [(".json", .json), (".properties", .properties), (".yaml", .yaml), (".yml", .yaml)]
-
-def ofSuffix (ext : String) : Option Fmt := suffixTable.lookup ext
-
-def Fmt.decoder : Fmt → String
-  | .yaml => "dom.DefaultYamlDecoder" | .json => "dom.DefaultJsonDecoder" | .properties => "props.DecoderFn"
-
-def Fmt.encoder : Fmt → String
-  | .yaml => "dom.DefaultYamlEncoder" | .json => "dom.DefaultJsonEncoder" | .properties => "props.EncoderFn"
-
-/-- name of the function DefaultFileDecoderProvider returns for a suffix (`nil` = unrecognised) -/
-def decoderOf (ext : String) : String := ((ofSuffix ext).map Fmt.decoder).getD "nil"
-def encoderOf (ext : String) : String := ((ofSuffix ext).map Fmt.encoder).getD "nil"
-
-end Ytk.FileCodec
 
 /-! ## pipeline: import / export / set / template -/
 namespace Ytk.PD
